@@ -123,6 +123,19 @@ def make(target=None, counts_file=".counts.json"):
 
         pathlib.Path.read_text = read_text
 
+        # the same boundary ("a test file is read") when the source is opened the way python decodes it
+        real_tok_open = tokenize.open
+
+        def tok_open(filename):
+            k = hit("read_text") if str(filename).endswith(".py") and "site-packages" not in str(filename) else None
+            if k == "raise":
+                raise InjectedFault("read_text")
+            if k == "exit":
+                die()
+            return real_tok_open(filename)
+
+        tokenize.open = tok_open
+
         real_rename = pathlib.Path.rename
 
         def rename(self, t):
